@@ -774,9 +774,9 @@ func openAndRead(comp, dir string, keys [][]byte) (opened bool, err error) {
 			if !exportBlocked {
 				_, err := st.ExportTx(id, false, false, store.NewTx(64, 256))
 				note(err)
-				if err != nil && strings.Contains(err.Error(), "partially truncated") && vk.Excluded(kfF2) {
+				if err != nil && strings.Contains(err.Error(), "partially truncated") && isExcluded(kfF2) {
 					// known finding: this error path returns with _valBsMux held, the next ExportTx would block for ever
-					vk.CountExcluded(kfF2)
+					countExcluded(kfF2)
 					exportBlocked = true
 				}
 			}
@@ -812,6 +812,7 @@ func openAndRead(comp, dir string, keys [][]byte) (opened bool, err error) {
 
 const kfF19 = "F19-store-open-trusts-last-clog-entry"
 const kfF21 = "F21-aht-dataat-trusts-commit-log-size"
+const kfF23 = "F23-tbtree-root-node-size-unchecked"
 const kfF17 = "F17-limits-in-commit-log-header-trusted"
 const kfF22 = "F22-txlog-vlen-unchecked"
 
@@ -1095,6 +1096,15 @@ func bytesEqualPayloadOf(orig, mut []byte) bool {
 	return string(orig[ho:]) == string(mut[hm:])
 }
 
+// probeVerdict: pinned reproductions use small bombs (256 MiB: eight shards run them at once) and a 128 MiB bound.
+func probeVerdict(r result, what string) (bool, string) {
+	r.base = 128 << 20
+	if m := r.verdict(what, 4096); m != "" {
+		return true, m
+	}
+	return false, ""
+}
+
 func diskProbes() []vk.Probe {
 	probe := func(edit func(img *dirImage) []byte) (bool, string) {
 		dfOnce.Do(func() { df, dfErr = buildDiskFixture() })
@@ -1108,10 +1118,7 @@ func diskProbes() []vk.Probe {
 			return false, ""
 		}
 		r := runStateful(func() { openAndRead("singleapp-z", dir, nil) })
-		if m := r.verdict("singleapp.Open + ReadAt of every chunk", 1024); m != "" {
-			return true, m
-		}
-		return false, ""
+		return probeVerdict(r, "singleapp.Open + ReadAt of every chunk")
 	}
 	storeProbe := func(what, name string, edit func(b []byte, l *layout) bool, use func(st *store.ImmuStore)) (bool, string) {
 		dfOnce.Do(func() { df, dfErr = buildDiskFixture() })
@@ -1138,10 +1145,7 @@ func diskProbes() []vk.Probe {
 				use(st)
 			}
 		})
-		if m := r.verdict(what, 4096); m != "" {
-			return true, m
-		}
-		return false, ""
+		return probeVerdict(r, what)
 	}
 	setField := func(suffix string, v uint64) func(b []byte, l *layout) bool {
 		return func(b []byte, l *layout) bool {
@@ -1154,12 +1158,39 @@ func diskProbes() []vk.Probe {
 			return false
 		}
 	}
-	return []vk.Probe{{ID: kfF17, Present: func() (bool, string) {
-		return storeProbe("store.Open with MAX_KEY_LEN := 1<<24 in the header of commit/00000000.txi (MAX_TX_ENTRIES stays 16)", "commit/00000000.txi",
-			setField(">MAX_KEY_LEN.val", 1<<24), nil)
+	return []vk.Probe{{ID: kfF23, Present: func() (bool, string) {
+		dfOnce.Do(func() { df, dfErr = buildDiskFixture() })
+		if dfErr != nil {
+			return false, ""
+		}
+		img := df.comp["store"]
+		name := "index/commit/00000000.ri"
+		b := append([]byte(nil), img.files[name]...)
+		h, pl := payloadOf(b)
+		if len(pl) < 100 {
+			return false, ""
+		}
+		// rootNodeSize (bytes 16..20 of the only commit-log entry; not covered by the node-log checksum) := 16
+		binary.BigEndian.PutUint32(b[h+16:], 16)
+		dir := vk.Dir()
+		defer removeAll(dir)
+		if err := img.writeTo(dir, map[string][]byte{name: b}, nil); err != nil {
+			return false, ""
+		}
+		cr := runChild("openread", map[string]string{"comp": "store", "dir": dir})
+		if cr.died {
+			return true, "store.Open + reads with rootNodeSize := 16 in index/commit/00000000.ri KILLS THE PROCESS: " + cr.crash
+		}
+		if cr.verdict != "" {
+			return true, cr.verdict
+		}
+		return false, ""
+	}}, {ID: kfF17, Present: func() (bool, string) {
+		return storeProbe("store.Open with MAX_KEY_LEN := 1<<22 in the header of commit/00000000.txi (MAX_TX_ENTRIES stays 16)", "commit/00000000.txi",
+			setField(">MAX_KEY_LEN.val", 1<<22), nil)
 	}}, {ID: kfF22, Present: func() (bool, string) {
-		return storeProbe("store.Open + ReadTx(1) (integrity checks on) + ReadValue with the vLen of tx 1's entry set to 0x50000000 in the tx log", "tx/00000000.tx",
-			setField("tx1.e0.vLen", 0x50000000), func(st *store.ImmuStore) {
+		return storeProbe("store.Open + ReadTx(1) (integrity checks on) + ReadValue with the vLen of tx 1's entry set to 0x10000000 in the tx log", "tx/00000000.tx",
+			setField("tx1.e0.vLen", 0x10000000), func(st *store.ImmuStore) {
 				holder := store.NewTx(64, 256)
 				if err := st.ReadTx(1, false, holder); err != nil {
 					return
@@ -1175,8 +1206,8 @@ func diskProbes() []vk.Probe {
 		name := "commit/00000000.di"
 		b := append([]byte(nil), img.files[name]...)
 		p0 := 4 + int(binary.BigEndian.Uint32(b))
-		// size of the first payload := 0x50000000
-		binary.BigEndian.PutUint32(b[p0+8:], 0x50000000)
+		// size of the first payload := 0x10000000
+		binary.BigEndian.PutUint32(b[p0+8:], 0x10000000)
 		dir := vk.Dir()
 		defer removeAll(dir)
 		if err := img.writeTo(dir, map[string][]byte{name: b}, nil); err != nil {
@@ -1190,10 +1221,7 @@ func diskProbes() []vk.Probe {
 			defer tr.Close()
 			tr.DataAt(1)
 		})
-		if m := r.verdict("ahtree.Open + DataAt(1) with the payload size of commit-log entry 1 set to 0x50000000", 4096); m != "" {
-			return true, m
-		}
-		return false, ""
+		return probeVerdict(r, "ahtree.Open + DataAt(1) with the payload size of commit-log entry 1 set to 0x10000000")
 	}}, {ID: kfF2, Present: probeF2}, {ID: kfF20, Present: func() (bool, string) {
 		dfOnce.Do(func() { df, dfErr = buildDiskFixture() })
 		if dfErr != nil {
@@ -1234,10 +1262,10 @@ func diskProbes() []vk.Probe {
 		if len(b) < 44 {
 			return false, ""
 		}
-		// last commit-log entry: txOff := -0x50000000, txSize := 0x50000000 (their sum, 0, passes the only size check)
+		// last commit-log entry: txOff := -0x10000000, txSize := 0x10000000 (their sum, 0, passes the only size check)
 		e := len(b) - 44
-		binary.BigEndian.PutUint64(b[e:], uint64(0xFFFFFFFFB0000000))
-		binary.BigEndian.PutUint32(b[e+8:], 0x50000000)
+		binary.BigEndian.PutUint64(b[e:], uint64(0xFFFFFFFFF0000000))
+		binary.BigEndian.PutUint32(b[e+8:], 0x10000000)
 		dir := vk.Dir()
 		defer removeAll(dir)
 		if err := img.writeTo(dir, map[string][]byte{name: b}, nil); err != nil {
@@ -1248,19 +1276,16 @@ func diskProbes() []vk.Probe {
 				st.Close()
 			}
 		})
-		if m := r.verdict("store.Open with the last commit-log entry set to (txOff=-0x50000000, txSize=0x50000000)", 4096); m != "" {
-			return true, m
-		}
-		return false, ""
+		return probeVerdict(r, "store.Open with the last commit-log entry set to (txOff=-0x10000000, txSize=0x10000000)")
 	}}, {ID: kfF18, Present: func() (bool, string) {
-		// gzip-compressed appendable, length of the first chunk set to FF FF FF FF
+		// gzip-compressed appendable, length of the first chunk set to 10 00 00 00 (256 MiB)
 		if ok, m := probe(func(img *dirImage) []byte {
 			b := append([]byte(nil), img.files["f.aof"]...)
 			p0 := 4 + int(binary.BigEndian.Uint32(b))
-			copy(b[p0:], []byte{0xFF, 0xFF, 0xFF, 0xFF})
+			copy(b[p0:], []byte{0x10, 0, 0, 0})
 			return b
 		}); ok {
-			return true, "first chunk length := FFFFFFFF: " + m
+			return true, "first chunk length := 10000000: " + m
 		}
 		// compression format := 9 (unknown)
 		return probe(func(img *dirImage) []byte {
@@ -1382,6 +1407,14 @@ func TestOpenCorruptedDirectories(t *testing.T) {
 		if known == "" && comp == "store" && vLenKnown(img, override, fx.txFields) {
 			known = kfF22
 		}
+		if known == "" {
+			for n, b := range override {
+				isIdxCommit := comp == "tbtree" && strings.HasPrefix(n, "commit/") || comp == "store" && strings.HasPrefix(n, "index") && strings.Contains(n, "/commit/")
+				if isIdxCommit && !bytesEqualPayloadOf(img.files[n], b) {
+					known = kfF23
+				}
+			}
+		}
 		if known == "" && comp == "aht" && ahtSizeKnown(img, override, deleted, "") {
 			known = kfF21
 		}
@@ -1405,7 +1438,7 @@ func TestOpenCorruptedDirectories(t *testing.T) {
 		var rerr error
 		if comp == "store" || comp == "tbtree" {
 			// the store's indexers and tbtree's insert helpers decode nodes in background goroutines: run in a child process
-			cr := runChild("openread", map[string]string{"C16_COMP": comp, "C16_DIR": dir})
+			cr := runChild("openread", map[string]string{"comp": comp, "dir": dir})
 			c.Label("ran-in-child-process")
 			if cr.died {
 				c.Failf(rt, map[string]any{"component": comp, "corruption": desc}, "open + full read of a corrupted %s directory KILLED THE PROCESS: %s\ncorruption: %s", comp, cr.crash, desc)
